@@ -1,6 +1,8 @@
 package compiler
 
 import (
+	"fmt"
+
 	"github.com/grafana/cog/internal/ast"
 )
 
@@ -24,6 +26,11 @@ func (pass *AddObject) Process(schemas []*ast.Schema) ([]*ast.Schema, error) {
 func (pass *AddObject) processSchema(visitor *Visitor, schema *ast.Schema) (*ast.Schema, error) {
 	if schema.Package != pass.Object.Package {
 		return schema, nil
+	}
+
+	// the new object does not take the place of another one
+	if schema.HasObject(pass.Object.Object) {
+		return nil, fmt.Errorf("add_object: the object '%s' already exists in package '%s'", pass.Object.Object, pass.Object.Package)
 	}
 
 	newObject := ast.NewObject(pass.Object.Package, pass.Object.Object, pass.As.DeepCopy())
